@@ -46,7 +46,9 @@ type Model struct {
 
 	Build      *ssa.Function
 	Run        *ssa.Function
-	Closure    *ssa.Function // the go closure in Run
+	Closure    *ssa.Function // the per-cell function containing the kernel call (the go closure, or a closure it calls)
+	GoClosure  *ssa.Function // the function started by the go statement
+	ClosureMC  *ssa.MakeClosure
 	GoInstr    *ssa.Go
 	Kernel     *ssa.Function
 	KernelCall *ssa.Call
@@ -278,13 +280,58 @@ func (p *Program) Registry() ([]*Model, []string) {
 				}
 			})
 		}
+		m.GoClosure = m.Closure
 		if m.Closure != nil && m.KernelName != "" {
-			for _, c := range callsIn(m.Closure) {
-				if call, ok := c.(*ssa.Call); ok {
-					if f := call.Common().StaticCallee(); f != nil && f.Name() == m.KernelName && fnPkg(f) == pk.Pkg {
-						if m.KernelCall == nil {
-							m.KernelCall = call
-							m.Kernel = f
+			findKernel := func(cl *ssa.Function) bool {
+				for _, c := range callsIn(cl) {
+					if call, ok := c.(*ssa.Call); ok {
+						if f := call.Common().StaticCallee(); f != nil && f.Name() == m.KernelName && fnPkg(f) == pk.Pkg {
+							if m.KernelCall == nil {
+								m.KernelCall = call
+								m.Kernel = f
+							}
+						}
+					}
+				}
+				return m.KernelCall != nil
+			}
+			if !findKernel(m.Closure) {
+				// the go closure may delegate the per-cell work to a named closure of Run: follow such calls
+				seen := map[*ssa.Function]bool{m.Closure: true}
+				work := []*ssa.Function{m.Closure}
+				for len(work) > 0 && m.KernelCall == nil {
+					cur := work[0]
+					work = work[1:]
+					for _, c := range callsIn(cur) {
+						for _, o := range origins(c.Common().Value) {
+							var mc *ssa.MakeClosure
+							switch x := o.(type) {
+							case *ssa.MakeClosure:
+								mc = x
+							case *ssa.UnOp:
+								if fv, ok := x.X.(*ssa.FreeVar); ok {
+									b := bindingOf(fv.Parent(), freeVarIndex(fv.Parent(), fv))
+									if a, ok := b.(*ssa.Alloc); ok {
+										if sv := singleStoreCell(a); sv != nil {
+											mc, _ = sv.(*ssa.MakeClosure)
+										}
+									}
+								}
+							}
+							if mc == nil {
+								continue
+							}
+							f, _ := mc.Fn.(*ssa.Function)
+							if f == nil || seen[f] || f.Parent() != m.Run {
+								continue
+							}
+							seen[f] = true
+							if findKernel(f) {
+								m.Closure = f
+								m.ClosureMC = mc
+							} else {
+								work = append(work, f)
+							}
 						}
 					}
 				}
